@@ -26,7 +26,7 @@ def cases(seed, tier):
     comp = dict(zip("ACGTRYSWKMBDHVN", "TGCAYRSWMKVHDBN"))
     comp.update({k.lower(): v.lower() for k, v in list(comp.items())})
     for _ in range(n):
-        k = loglen(r, 1, 10000 if tier == "thorough" else 2000)
+        k = loglen(r, 1, 10000) if r.random() < 0.8 else r.randint(3000, 10000)   # the property names lengths to 10^4
         w = randcase(r, randword(r, IUPAC15, k))
         kind = r.random()
         if kind < 0.25:     # an exact reverse-palindrome (case pattern mirrored too)
